@@ -15,6 +15,43 @@ fn req(ep: &str, tok: &[u8], segs: &[Vec<u8>], mid: u16) -> CoapRequest<Ep> {
     CoapRequest::from_packet(p, ep.to_string())
 }
 
+/// Deterministic noise for the request fields an operation must not look at (the specification's
+/// operators do not even receive them): registration requests with any message id, type, query and
+/// payload; acknowledgements that carry any token.
+fn noise() -> u64 {
+    static N: std::sync::atomic::AtomicU64 = std::sync::atomic::AtomicU64::new(0x9E37);
+    let x = N.fetch_add(0x9E3779B97F4A7C15, std::sync::atomic::Ordering::Relaxed);
+    let mut z = x;
+    z = (z ^ (z >> 30)).wrapping_mul(0xBF58476D1CE4E5B9);
+    z = (z ^ (z >> 27)).wrapping_mul(0x94D049BB133111EB);
+    z ^ (z >> 31)
+}
+fn noisy_registration(ep: &str, tok: &[u8], segs: &[Vec<u8>]) -> CoapRequest<Ep> {
+    let n = noise();
+    let mut r = req(ep, tok, segs, (n >> 8) as u16);
+    if n & 1 == 1 {
+        r.message.header.set_type(MessageType::NonConfirmable);
+    }
+    if n & 2 == 2 {
+        r.message.add_option(CoapOption::UriQuery, b"q=1".to_vec());
+    }
+    if n & 4 == 4 {
+        r.message.payload = vec![1, 2, 3];
+    }
+    if n & 8 == 8 {
+        r.message.add_option(CoapOption::Observe, vec![(n >> 32) as u8 & 1]);
+    }
+    r
+}
+fn noisy_ack(ep: &str, mid: u16) -> CoapRequest<Ep> {
+    let n = noise();
+    let tok: Vec<u8> = if n & 1 == 1 { vec![] } else { (0..(1 + (n >> 4) % 8)).map(|i| (n >> (8 + i)) as u8).collect() };
+    let mut r = req(ep, &tok, &[], mid);
+    r.message.header.set_type(if n & 2 == 2 { MessageType::Acknowledgement } else { MessageType::Reset });
+    r.message.header.code = coap_lite::MessageClass::Empty;
+    r
+}
+
 fn segs_of(path: &str) -> Vec<Vec<u8>> {
     if path.is_empty() {
         vec![]
@@ -52,17 +89,15 @@ fn apply(s: &mut Subject<Ep>, c: &Value) {
     match c["op"].as_str().unwrap() {
         "register" => {
             let segs: Vec<Vec<u8>> = match c.get("segs") { Some(x) => x.as_array().unwrap().iter().map(vbytes).collect(), None => segs_of(c["p"].as_str().unwrap()) };
-            s.register(&req(c["ep"].as_str().unwrap(), &vbytes(&c["tok"]), &segs, 0))
+            s.register(&noisy_registration(c["ep"].as_str().unwrap(), &vbytes(&c["tok"]), &segs))
         }
         "deregister" => {
             let segs: Vec<Vec<u8>> = match c.get("segs") { Some(x) => x.as_array().unwrap().iter().map(vbytes).collect(), None => segs_of(c["p"].as_str().unwrap()) };
-            s.deregister(&req(c["ep"].as_str().unwrap(), &vbytes(&c["tok"]), &segs, 0))
+            s.deregister(&noisy_registration(c["ep"].as_str().unwrap(), &vbytes(&c["tok"]), &segs))
         }
         "changed" => s.resource_changed(c["p"].as_str().unwrap(), c["mid"].as_u64().unwrap() as u16, c["con"].as_bool().unwrap()),
         "ack" => {
-            let mut r = req(c["ep"].as_str().unwrap(), &[], &[], c["mid"].as_u64().unwrap() as u16);
-            r.message.header.set_type(MessageType::Acknowledgement);
-            s.acknowledge(&r)
+            s.acknowledge(&noisy_ack(c["ep"].as_str().unwrap(), c["mid"].as_u64().unwrap() as u16))
         }
         "limit" => s.set_unacknowledged_limit(c["n"].as_u64().unwrap() as u8),
         other => tool_error(&format!("unknown observe op {}", other)),
